@@ -256,6 +256,12 @@ pub mod shim {
     pub assume_specification<T: core::cmp::Ord> [ core::cmp::max::<T> ] (a: T, b: T) -> (r: T)
         ensures <T as vstd::std_specs::cmp::OrdSpec>::obeys_cmp_spec() ==> r == (if vstd::std_specs::cmp::OrdSpec::cmp_spec(&b, &a) == core::cmp::Ordering::Less { a } else { b });
 
+    /// rule R33: forces the receiver of an inlined Option combinator to be an Option (identity)
+    pub fn opt_id<T>(o: Option<T>) -> (r: Option<T>) ensures r == o { o }
+    pub assume_specification [IpAddr::is_ipv4] (a: &IpAddr) -> (r: bool)
+        ensures r == (match *a { IpAddr::V4(_) => true, IpAddr::V6(_) => false });
+    pub assume_specification [IpAddr::is_ipv6] (a: &IpAddr) -> (r: bool)
+        ensures r == (match *a { IpAddr::V4(_) => false, IpAddr::V6(_) => true });
     // std Option/Result combinators without a vstd specification (semantics as documented in std; closures enter
     // through their own requires/ensures, which rule R32 writes for expression closures and Verus checks)
     pub assume_specification<T, F: FnOnce(&T) -> bool>[ Option::<T>::filter::<F> ](o: Option<T>, f: F) -> (r: Option<T>)
